@@ -93,7 +93,7 @@ def _helper_cases(draw, tier):
     add = draw(st.lists(st.integers(1, 255), min_size=1, max_size=3, unique=True))
     return {"defn": d, "mode": mode, "where": where, "vals": vals, "add": add, "density": draw(st.integers(1, 2)),
             "rows": draw(st.integers(0, 2)), "onknots": draw(st.lists(st.integers(0, 63), max_size=2)),
-            "noise": draw(st.sampled_from([0, 0, 1, -1]))}
+            "noise": draw(st.sampled_from([0, 0, 1, -1])), "live": draw(st.booleans())}
 
 
 def check_helper(case, ctx):
@@ -113,6 +113,11 @@ def check_helper(case, ctx):
     pts = build.homogeneous(d["P"], d["W"]) if d["rational"] else [list(q) for q in d["P"]]
     rows = case["rows"]
     cp = [[[c + 0.5 * j for c in pt] for j in range(rows)] for pt in pts] if rows else pts
+    live = None
+    if case.get("live") and not rows:
+        # the helper is handed the control points of a living curve (curve.ctrlpts / .ctrlptsw), as a caller would do
+        live = build.make(d)
+        cp = live.ctrlptsw if d["rational"] else live.ctrlpts
     kw = {"density": case["density"]}
     mode = case["mode"]
     base = sorted(set(kv[p:len(kv) - p]))
@@ -168,6 +173,15 @@ def check_helper(case, ctx):
     # claim about that, so the original is taken from the copy made before the call and this is only labelled.
     ctx.label("helper-input-modified", cp != before)
     cp = before
+    if live is not None:
+        ctx.label("control-points-of-a-living-curve")
+        R0 = ref.Spline([p], [kv], [n], cp, d["rational"])
+        for us in shape.lattice([p], [kv], [n], limit=9):
+            pa, sc = R0.point(us)
+            got = live.evaluate_single(float(us[0]))
+            ctx.check(ref.vec_close(got, pa, sc, 1e-9), "helper-moved-source-curve",
+                      "after knot_refinement(curve.degree, curve.knotvector, curve.ctrlpts%s, %r) the curve itself evaluates to %r at %r, before %r"
+                      % ("w" if d["rational"] else "", kw, got, float(us[0]), ref.fl(pa)))
     want = sorted(U + X)
     ctx.check(len(new_kv) == len(want), "helper-knot-count", "knot_refinement returned %d knots, expected %d (%r)" % (len(new_kv), len(want), new_kv))
     ctx.check(all(x <= y for x, y in zip(new_kv, new_kv[1:])), "helper-knots-unsorted", "returned knot vector decreases: %r" % (new_kv,))
